@@ -6,6 +6,7 @@ def parseMap (s : String) : Option MapKind :=
   | "btree" => some .btree
   | "vec" => some .vec
   | "maxvec" => some .maxvec
+  | "maxbtree" => some .maxvec   -- `MaxMap<BTreeMap>`: same semantics as `MaxMap<VecMap>` in the model
   | _ => none
 
 partial def loop (h : IO.FS.Stream) (out : IO.FS.Stream) (w : Option World) : IO Unit := do
